@@ -286,6 +286,31 @@ def one_case(ctx, r, desc):
                           and "/." not in os.path.dirname(p) and not (ren and p == ren[1])})
         cwd_rel = r.choice([""] + subdirs[:6]) if r.random() < 0.5 else ""
         cwd = os.path.join(root, cwd_rel) if cwd_rel else root
+        # some sub-directories look like checkouts of their own (a nested clone has a `.git` directory, a submodule or linked worktree a
+        # `.git` file): their files are still files under the repository root. The markers are written after git has produced the
+        # diff, so git's own view of the tree is not affected, and never on the way from the root to the start directory.
+        nested = []
+        rn = rng("c15-nested", desc.get("seed"), desc.get("i"), desc.get("j"))
+        if rn.random() < 0.3:
+            alld = set()
+            for pth in paths:
+                segs = pth.split("/")[:-1]
+                for k in range(1, len(segs) + 1):
+                    alld.add("/".join(segs[:k]))
+            # only over sub-trees without git-ignored files: whether the outer repository's ignore rules reach into a nested checkout is
+            # not decided by the statement (git treats a real nested repository as opaque; the walker stops consulting outer rules there)
+            cand = sorted(d for d in alld if not is_hidden(d) and not (cwd_rel == d or cwd_rel.startswith(d + "/")) and os.path.isdir(os.path.join(root, d))
+                          and all(x in not_ignored for x in paths if x.startswith(d + "/")))
+            for d in rn.sample(cand, min(len(cand), rn.choice([1, 1, 2]))):
+                mk = os.path.join(root, d, ".git")
+                if os.path.lexists(mk):
+                    continue
+                if rn.random() < 0.5:
+                    os.makedirs(mk)
+                else:
+                    with open(mk, "w") as f:
+                        f.write("gitdir: ../.git/modules/%s\n" % os.path.basename(d))
+                nested.append(d)
         argv = list(globs)
         for g in ignores:
             argv += ["--ignore", g]
@@ -328,12 +353,13 @@ def one_case(ctx, r, desc):
     special = sorted({seg for p in diff_files for seg in p.split("/")[:-1] if seg in ("a", "b", "dir with space", "dots.in.name")})
     sets = {"mode": [mode], "mechanisms": sorted(mechanisms), "cwd": ["root" if not cwd_rel else "subdir"],
             "symlinks": ["in-scope" if p in scope else "out-of-scope" for p in links],
+            "nested_checkout_markers": [str(len(nested))],
             "ignore_files": sorted(gi_where),
             "diff_noise": (["binary+mode+pure-rename"] if noise else []),
             "deletion_in_diff": ([] if not gone else ["only-deletions" if not diff_files else "with-other-files"]),
             "rename": ([] if not ren else ["same-dir" if os.path.dirname(ren[0]) == os.path.dirname(ren[1]) else "other-dir"]),
             "diff_dirs": special, "nglobs_nignores": ["%d/%d" % (len(globs), len(ignores))]}
-    wit = {"paths": paths, "gitignore": gitignore, "argv": argv, "mode": mode, "cwd": cwd_rel, "diff_files": diff_files, "symlinks": links, "renamed": ren, "probe": probe, "deleted_by_diff": gone,
+    wit = {"paths": paths, "gitignore": gitignore, "argv": argv, "mode": mode, "cwd": cwd_rel, "diff_files": diff_files, "symlinks": links, "nested_git_markers": nested, "renamed": ren, "probe": probe, "deleted_by_diff": gone,
            "expected_scope": want, "diff": diff.decode("utf-8", "replace")[:3000], "desc": desc}
 
     def bad(sig, summary):
